@@ -371,6 +371,13 @@ func initFloat() {
 		"to_int",
 		func(_ *Thread, args []value.Value) (value.Value, value.Value) {
 			self := args[0].AsFloat()
+			if self.IsNaN() || self.IsInf(0) {
+				return value.Undefined, value.Ref(value.Errorf(
+					value.OutOfRangeErrorClass,
+					"cannot convert %s to Int",
+					self.Inspect(),
+				))
+			}
 			return self.ToInt(), value.Undefined
 		},
 	)
